@@ -178,30 +178,33 @@ class SuitObject(PrettyPrintHelperMixin):
             #   d81e84ffffffff -> SystemError
             #   d8234129 -> re.error
             raise ValueError("Cannot deserialize data!")
-        SuitObject._reject_shared_values(obj)
+        SuitObject._reject_expanding_values(obj, len(cbstr))
         return obj
 
     @staticmethod
-    def _reject_shared_values(obj: Any) -> None:
-        """Reject CBOR value sharing (tags 28/29): SUIT does not use it and every reference is expanded on re-encoding."""
-        seen = set()
+    def _reject_expanding_values(obj: Any, encoded_size: int) -> None:
+        """Reject a decoded value that is larger than its encoding.
+
+        CBOR value sharing and string references (tags 28/29, 25/256) make the decoded value compact in memory, but every
+        reference is expanded when the value is encoded again for the child objects. SUIT uses neither, and without them
+        every decoded item accounts for at least one byte of the input.
+        """
+        budget = encoded_size + 16
         stack = [obj]
         while stack:
             item = stack.pop()
-            if isinstance(item, cbor2.CBORTag):
-                children = [item.value]
-            elif isinstance(item, dict) or hasattr(item, "items"):
-                children = [child for pair in item.items() for child in pair]
+            budget -= 1
+            if isinstance(item, (bytes, str)):
+                budget -= len(item)
+            elif isinstance(item, cbor2.CBORTag):
+                stack.append(item.value)
+            elif hasattr(item, "items"):
+                for pair in item.items():
+                    stack.extend(pair)
             elif isinstance(item, (list, tuple, set, frozenset)):
-                children = list(item)
-            else:
-                continue
-            if len(children) == 0:
-                continue
-            if id(item) in seen:
-                raise ValueError("Shared CBOR values are not supported!")
-            seen.add(id(item))
-            stack.extend(children)
+                stack.extend(item)
+            if budget < 0:
+                raise ValueError("Decoded data is larger than its encoding (shared values are not supported)!")
 
     @staticmethod
     def serialize_cbor(obj: Any) -> bytes:
